@@ -30,6 +30,26 @@ LITERALS = ["0", "1", "2", "3", "4", "7", "-1", "-2", "0x10", "1.5", "0.5", "2.0
 MASKS = ["x", "y", "z", "w", "xy", "yx", "zw", "xyz", "zyx", "xyzw", "wzyx", "xx", "r", "g", "rg", "rgb", "bgr", "rgba", "xxxx", "a"]
 
 SEEDS = [
+    # conversions in nested positions: call in a call argument, in a constructor argument, in an index, in a condition
+    """int[9] tab;
+function twice (int x) -> int {
+  return x * 2;
+}
+function half (float x) -> float {
+  return x * 0.5;
+}
+function pick (int i, float w) -> float {
+  return tab[i] * w;
+}
+export function f (int a, float b) -> float {
+  tab[twice(1.5)] = 7;
+  int2 q = int2(twice(2.5), half(a));
+  float3 v = float3(half(twice(3.75)), twice(half(5)), b);
+  float r = pick(twice(0.5), twice(2.5)) + tab[twice(1.7)] + q.x + v.y;
+  if (twice(half(3)) > half(twice(1.5))) { r = r + pick(q.y, v.x); }
+  return r + half(twice(half(twice(9.0))));
+}
+""",
     # every kind of int-valued expression used as an index (a float sneaking in fails as an index, not as a value)
     """int[8] tab;
 float4 v4;
